@@ -93,7 +93,7 @@ Definition parse_mismatch (s : bytes) (o : option (list member)) (pieces_out : l
   let mo := parse s in
   omap_eqb mo o &&
   match mo with
-  | None => is_nil pieces_out && is_nil per && (ext =? 0) && negb (is_some re)
+  | None => is_nil pieces_out && (is_nil per || list_eqb (option_eqb member_eqb) (model_per s) per) && (ext =? 0) && negb (is_some re)
   | Some b =>
       perm_eqb (member_strings b) pieces_out &&
       omap_eqb (parse (baggage_string b)) re &&
@@ -249,7 +249,14 @@ Definition check_case (c : case) : list N :=
   | CParse s o pieces_out re per ext =>
       flag (parse_mismatch s o pieces_out re per ext) V_MISMATCH ++
       match o with
-      | None => []
+      | None =>
+          (* duplicates are legal (the last one wins) and the member limit counts the resolved members: a header
+             within the byte limits whose list-members each parse and have at most 180 distinct keys may not be rejected *)
+          flag (negb (negb (is_nil s) && header_within_limits s && negb (is_nil per) &&
+                      match all_some per with
+                      | Some ms => blen (dedup_last ms) <=? LIMIT_MEMBERS
+                      | None => false
+                      end)) V_SPECFAIL
       | Some b =>
           flag (parse_spec s b per ext) V_SPECFAIL ++
           (if reparse_spec b re then []
